@@ -16,6 +16,9 @@ use histogram::AtomicHistogram;
 /// the histogram crate describes this bucketing as stable.
 pub struct Histogram {
     inner: histogram::AtomicHistogram,
+    // verification builds only: makes record / drain scheduler-visible steps
+    #[cfg(metrique_verif_loom)]
+    shadow: metrique_writer_core::__verif::shadow::Shadow,
 }
 
 impl Default for Histogram {
@@ -30,6 +33,8 @@ impl Histogram {
         let standard_config = Self::default_configuration();
         Self {
             inner: AtomicHistogram::with_config(&standard_config),
+            #[cfg(metrique_verif_loom)]
+            shadow: Default::default(),
         }
     }
 
@@ -39,6 +44,8 @@ impl Histogram {
 
     /// Records an occurrence of a value in the histogram.
     pub fn record(&self, value: u32) {
+        #[cfg(metrique_verif_loom)]
+        self.shadow.touch();
         self.inner
             .add(value as u64, 1)
             .expect("known within bounds because of type");
@@ -49,6 +56,8 @@ impl Histogram {
     /// During the iteration, the histogram counts are atomically reset to zero.
     #[cfg_attr(not(feature = "metrics-rs-024"), allow(unused))]
     pub(crate) fn drain(&self) -> Vec<Bucket> {
+        #[cfg(metrique_verif_loom)]
+        self.shadow.touch();
         self.inner
             .drain()
             .into_iter()
